@@ -409,6 +409,20 @@ pub fn run(args: &Args) {
     report.assumption("descriptions that relay's tree has no slot for (types, input values, enum values, schema) are not compared");
     report.assumption("inputs whose acceptance depends on the number look-ahead restriction (added to the specification text after June 2018) are not judged");
 
+    report.extra(
+        "relay_extensions_excluded_by_construction",
+        json!([
+            "directives on variable definitions (`$a: Int @d`), non-constant",
+            "`repeatable` directive definitions",
+            "directive location VARIABLE_DEFINITION",
+            "`implements` on interface definitions / extensions",
+            "a description on a `schema` definition",
+            "hack_source: a second string after the description of a type system definition or field definition",
+            "fragment variable definitions and fragment spread arguments (ParserFeatures, off by default; never generated)",
+            "form feed as white space, control characters in comments, characters above U+FFFF (outside SourceCharacter; never generated)",
+        ]),
+    );
+
     if let Some(path) = &args.replay {
         let v = vcore::read_replay(path);
         let r = run_input(&report, &v["input"]);
